@@ -30,16 +30,21 @@ package isaacstates
 //@   ensures [lookup-key] r1 == mhas(box.vrs, vrkey(stagepoint, isSuffrageConfirm))
 //@   ensures [lookup-val] r1 ==> r0 == mval(box.vrs, vrkey(stagepoint, isSuffrageConfirm), r0)
 
-// assumed: the pooled constructor hands out a non-nil record initialised for this stage point
-//@ func newVoterecords
-//@   trusted
-//@   modifies *
-//@   ensures r0 != nil && r0.sp == stagepoint && r0.isc == isSuffrageConfirm
-
 //@ func (*Ballotbox).newVoterecords
 //@   prop C05
 //@   requires box.vrs != nil
 //@   callsite Set requires a0 == vrkey(stagepoint, isSuffrageConfirm)
+
+// a record handed out for a stage point (fresh or recycled through the pool)
+// carries nothing of the stage point it served before: no votes, ballots,
+// expels, voteproofs, and no pending hold (countAfter / lastthreshold are what
+// countHolded acts on)
+//@ func newVoterecords
+//@   prop C05
+//@   modifies *
+//@   callsite Get ensures typeis(r0, *voterecords) && unbox(r0, *voterecords) != nil
+//@   ensures [blank] r0 != nil && r0.sp == stagepoint && r0.isc == isSuffrageConfirm && len(r0.voted) == 0 && len(r0.ballots) == 0 && len(r0.expels) == 0 && len(r0.vps) == 0 && r0.vp == nil
+//@   ensures [no-stale-hold] r0.countAfter == zero(time.Time) && r0.lastthreshold == 0
 
 // every record scheduled for release is removed under the key it is stored under
 //@ func (*Ballotbox).clean
